@@ -39,3 +39,7 @@ claim("C14",
       "Each configured limit is an unconstrained 64-bit solver variable; document templates of known usage (depth, object count, array bytes incl. chunk sums, markers, encoded CBE size) run through the real validator / CBE decoder and z3 shows rejected <=> usage > limit for every limit value.",
       "Usage computed by construction of the template. MaxArraySizeBytes=0 (unlimited) excluded; identifier length limit is decided in C13's identifier entry; CTE decoder size check is a one-line wrapper outside the encoded code. Markers are additionally charged against MaxLocalReferenceCount (pinned by the suite): exact verdict asserted when that limit does not bind.",
       "DESIGN.md §5 C14")
+claim("C16",
+      "Histories of two or three documents on one instance (rules validator after Reset, CBE encoder, CBE decoder): earlier documents are templates cut at every event index or invalid, the last has a symbolic payload and symbolic limits; z3 shows verdict, forwarded events and output bytes equal those of a fresh instance.",
+      "Outside: marshaler/unmarshaler sessions and type caches (reflection, sync.Map); the CTE encoder's column state is covered by C23's harness only indirectly. 'Same error' = same nil-ness.",
+      "DESIGN.md §5 C16")
